@@ -7,7 +7,7 @@
     tokens), PLOT.  Also the dispatch table of src/command/dispatcher.rs, from Gen/Params.v.
     Executable definitions only. *)
 From Coq Require Import NArith ZArith List Bool.
-From Snel Require Import Base.Bytes Model.Tokenizer Model.Parser Gen.Params.
+From Snel Require Import Base.Bytes Model.Tokenizer Model.Parser Model.PlotQL Gen.Params.
 Import ListNotations.
 Open Scope N_scope.
 
@@ -79,9 +79,16 @@ Inductive command :=
 | CRevokeKey (u : bytes)
 | CGrant (perms evs : list bytes) (u : bytes)
 | CRevokePerm (perms evs : list bytes) (u : bytes)
-| CShowPerm (u : bytes).
+| CShowPerm (u : bytes)
+| CCompare (qs : list query)                       (* PLOT ... VS ... *)
+| CDefine (et : bytes) (version : option N) (fields : list (bytes * fieldspec))   (* fields in source order; a later duplicate key wins *)
+| CBatch (cs : list command)
+with fieldspec := FPrim (s : bytes) | FEnum (l : list bytes).
 
-Inductive unmodelled := UDefine | UBatch | UPlot.
+(** what the model leaves undecided: DEFINE with a word / string token whose content would need JSON
+    escaping or a version number outside the simple decimal forms; BATCH with a number token that is not
+    a small integer (the Rust code re-renders the f64) *)
+Inductive unmodelled := UDefine | UBatch.
 
 Inductive presult :=
 | POk (c : command)
@@ -468,9 +475,248 @@ Definition parse_create_user (ts : list token) : presult :=
   | _ => PErr
   end.
 
+(** * PLOT (plotql.rs; Model/PlotQL.v) *)
+Definition parse_plot_cmd (s : bytes) : presult :=
+  match parse_plot s with
+  | Ok (PlotQuery q) => POk (CQuery q)
+  | Ok (PlotCompare qs) => POk (CCompare qs)
+  | Err => PErr | Panic k => PPanic k | OOF => POOF
+  end.
+
+(** * DEFINE (define.rs)
+
+    The FIELDS block is rebuilt from the tokens as JSON text (words and strings re-quoted without
+    escaping, symbols and brackets copied, numbers re-rendered, ';' '(' ')' dropped) and parsed by
+    serde_json; the object must map each key to a string or to a non-empty array of strings.  With
+    token contents that need no escaping ("plain": no quote, backslash or control character) that is
+    exactly: '{' [ name ':' spec { ',' name ':' spec } ] '}' with spec = name | '[' name { ',' name } ']'
+    over the word / string tokens; any number token or other symbol makes the result an error. *)
+
+Definition is_plain_char (c : N) : bool := negb (c =? 34) && negb (c =? 92) && negb (c <? 32).
+Definition plain (s : bytes) : bool := forallb is_plain_char s.
+
+Definition K_FIELDS : bytes := [70; 73; 69; 76; 68; 83].
+Definition K_AS : bytes := [65; 83].
+
+(** [^[a-zA-Z][a-zA-Z0-9_]{0,99}$] *)
+Definition valid_event_type (w : bytes) : bool :=
+  match w with
+  | c :: r => is_alpha c && forallb (fun x => is_alnum x || (x =? 95)) r && (length r <=? 99)%nat
+  | [] => false
+  end.
+
+(** a number token that is a plain integer below 2^53 re-renders ([f64::to_string]) as that integer *)
+Definition small_int_text (raw : bytes) : option bytes :=
+  match integer raw with
+  | Some ((neg, d), []) =>
+      let v := digits_val d 0 in
+      if v <? 9007199254740992 then Some ((if neg then [45] else []) ++ dec_of_N v) else None
+  | _ => None
+  end.
+
+(** the items of the block that matter; [DNum] is a number token that re-renders as a plain integer (a valid
+    JSON number); [DOdd] is a number token in any other form (undecided) *)
+Inductive ditem := DName (s : bytes) | DColon | DComma | DLSq | DRSq | DNum | DOdd | DBad.
+
+(** tokens up to the closing brace -> items (None: nested '{' or no closing brace), and the rest *)
+Fixpoint define_items (ts : list token) (acc : list ditem) : option (list ditem * list token) :=
+  match ts with
+  | [] => None
+  | t :: r =>
+      match t with
+      | TLBrace => None
+      | TRBrace => Some (frev acc, r)
+      | TLSq => define_items r (DLSq :: acc)
+      | TRSq => define_items r (DRSq :: acc)
+      | TWord w => define_items r (DName w :: acc)
+      | TStr w => define_items r (DName w :: acc)
+      | TSym c => define_items r ((if c =? 58 then DColon else if c =? 44 then DComma else DBad) :: acc)
+      | TNum raw => define_items r ((match small_int_text raw with Some _ => DNum | None => DOdd end) :: acc)
+      | _ => define_items r acc
+      end
+  end.
+
+(** a JSON value over the items: a name (string), a number, or an array of values.  [Some (Some spec)] when it
+    is a string or a non-empty array of strings; [Some None] for any other valid value (rejected later by the
+    type check, if its key survives) *)
+Definition jv := option fieldspec.
+Fixpoint define_value (fuel : nat) (is : list ditem) : option (jv * option bytes * list ditem) :=
+  (* the middle component: Some s when the value is the string s *)
+  match fuel with
+  | O => None
+  | S f =>
+      match is with
+      | DName n :: r => Some (Some (FPrim n), Some n, r)
+      | DNum :: r => Some (None, None, r)
+      | DLSq :: DRSq :: r => Some (None, None, r)
+      | DLSq :: r =>
+          (fix elems (k : nat) (is' : list ditem) (acc : list bytes) (allstr : bool) : option (jv * option bytes * list ditem) :=
+             match k with
+             | O => None
+             | S k' =>
+                 match define_value f is' with
+                 | Some (_, so, r1) =>
+                     let acc' := match so with Some x => x :: acc | None => acc end in
+                     let allstr' := allstr && match so with Some _ => true | None => false end in
+                     match r1 with
+                     | DRSq :: r2 => Some ((if allstr' then Some (FEnum (frev acc')) else None), None, r2)
+                     | DComma :: r2 => elems k' r2 acc' allstr'
+                     | _ => None
+                     end
+                 | None => None
+                 end
+             end) (S (length r)) r [] true
+      | _ => None
+      end
+  end.
+
+Fixpoint define_members (fuel : nat) (is : list ditem) (acc : list (bytes * jv)) : option (list (bytes * jv)) :=
+  match fuel with
+  | O => None
+  | S f =>
+      match is with
+      | DName k :: DColon :: r =>
+          match define_value (S (length r)) r with
+          | Some (v, _, r') =>
+              match r' with
+              | [] => Some (frev ((k, v) :: acc))
+              | DComma :: r'' => define_members f r'' ((k, v) :: acc)
+              | _ => None
+              end
+          | None => None
+          end
+      | _ => None
+      end
+  end.
+
+(** serde_json keeps the last value of a repeated key; then every remaining value must have a good type *)
+Fixpoint last_wins (l : list (bytes * jv)) : list (bytes * jv) :=
+  match l with
+  | [] => []
+  | (k, v) :: r => if existsb (fun kv => bytes_eqb (fst kv) k) r then last_wins r else (k, v) :: last_wins r
+  end.
+Fixpoint good_fields (l : list (bytes * jv)) : option (list (bytes * fieldspec)) :=
+  match l with
+  | [] => Some []
+  | (k, Some sp) :: r => match good_fields r with Some r' => Some ((k, sp) :: r') | None => None end
+  | (_, None) :: _ => None
+  end.
+
+(** number tokens are re-rendered without separators, so two adjacent ones (or one next to a stray symbol)
+    could fuse into one JSON number: undecided *)
+Fixpoint items_decided (is : list ditem) : bool :=
+  match is with
+  | [] => true
+  | DOdd :: _ => false
+  | DNum :: DNum :: _ | DNum :: DBad :: _ | DBad :: DNum :: _ => false
+  | _ :: r => items_decided r
+  end.
+
+Definition tok_plain (t : token) : bool :=
+  match t with TWord w | TStr w => plain w | _ => true end.
+
+(** [Some(Number(n)) if n >= 0.0 => n as u32] on the scanned text: only the forms [-]digits[.digits]
+    with at most 15 significant digits in total are decided *)
+Definition strip_zeros (d : bytes) : bytes := drop_while (fun c => c =? 48) d.
+Definition version_of_num (raw : bytes) : option (option N) :=   (* None: undecided; Some None: error; Some (Some v) *)
+  match number_text raw with
+  | Some ((neg, d, fo), []) =>
+      let fd := match fo with Some x => x | None => [] end in
+      let iv := digits_val d 0 in
+      let zero := (iv =? 0) && (digits_val fd 0 =? 0) in
+      if neg && negb zero then Some None
+      else if match fo with None => true | Some _ => (length (strip_zeros d) + length fd <=? 15)%nat end
+      then Some (Some (if 4294967295 <=? iv then 4294967295 else iv))
+      else None
+  | _ => None
+  end.
+
+Definition parse_define (ts : list token) : presult :=
+  match ts with
+  | _ :: TWord et :: r0 =>
+      if negb (valid_event_type et) then PErr else
+      let after_version (version : option N) (r : list token) : presult :=
+        match r with
+        | TWord f :: TLBrace :: r1 =>
+            if negb (ci_eqb f K_FIELDS) then PErr else
+            match define_items r1 [] with
+            | None => PErr
+            | Some (items, rest) =>
+                if negb (forallb tok_plain (firstn (length r1 - length rest) r1)) || negb (items_decided items)
+                then PUnmodelled UDefine else
+                match items with
+                | [] => PErr                                           (* {} : EmptySchema *)
+                | _ =>
+                    match define_members (S (length items)) items [] with
+                    | Some members =>
+                        match good_fields (last_wins members) with
+                        | Some fields => match rest with [] => POk (CDefine et version fields) | _ => PErr end
+                        | None => PErr
+                        end
+                    | None => PErr
+                    end
+                end
+            end
+        | _ => PErr
+        end in
+      match r0 with
+      | TWord a :: r1 =>
+          if ci_eqb a K_AS then
+            match r1 with
+            | TNum raw :: r2 =>
+                match version_of_num raw with
+                | Some (Some v) => after_version (Some v) r2
+                | Some None => PErr
+                | None => PUnmodelled UDefine
+                end
+            | _ => PErr        (* a word never parses as u32 (it starts with a letter or '_'); anything else is an error *)
+            end
+          else after_version None r0
+      | _ => after_version None r0
+      end
+  | _ => PErr
+  end.
+
+(** * BATCH (batch.rs): the commands between '[' and ']' are re-assembled from the tokens into one text,
+    split at ';', trimmed and parsed one by one *)
+
+(** the buffer is accumulated in reverse ([rbuf]); a word / string / number is preceded by a space unless
+    the buffer is empty *)
+Definition push_spaced (rbuf piece : bytes) : bytes :=
+  match rbuf with [] => rev_append piece [] | _ => rev_append piece (32 :: rbuf) end.
+
+(** result: None = error; Some (None) = undecided; Some (Some text) *)
+Fixpoint batch_buffer (ts : list token) (depth : nat) (rbuf : bytes) (undecided : bool) : option (option bytes) :=
+  match ts with
+  | [] => None                                                     (* missing ']' *)
+  | t :: r =>
+      match t with
+      | TLBrace => batch_buffer r (S depth) (123 :: rbuf) undecided
+      | TRBrace => match depth with O => None | S d => batch_buffer r d (125 :: rbuf) undecided end
+      | TRSq => match depth with O => Some (if undecided then None else Some (frev rbuf)) | S _ => None end
+      | TWord w => batch_buffer r depth (push_spaced rbuf w) undecided
+      | TStr w => batch_buffer r depth (push_spaced rbuf (34 :: w ++ [34])) undecided
+      | TNum raw =>
+          match small_int_text raw with
+          | Some txt => batch_buffer r depth (push_spaced rbuf txt) undecided
+          | None => batch_buffer r depth rbuf true
+          end
+      | TSym c => batch_buffer r depth (c :: rbuf) undecided
+      | TSemi => batch_buffer r depth (59 :: rbuf) undecided
+      | _ => batch_buffer r depth rbuf undecided
+      end
+  end.
+
+Fixpoint split_semi (s : bytes) (cur : bytes) : list bytes :=
+  match s with
+  | [] => [frev cur]
+  | c :: r => if c =? 59 then frev cur :: split_semi r [] else split_semi r (c :: cur)
+  end.
+
 (** * [parse_command] *)
 
-Definition parse_command (fx : bool) (raw : bytes) : presult :=
+(** every head except BATCH; [batch] is what a BATCH head does with the tokens *)
+Definition parse_command_with (batch : list token -> presult) (fx : bool) (raw : bytes) : presult :=
   let input := utrim raw in
   let ts := tokenize input in
   if negb (tokens_in_domain ts) then PDomain
@@ -478,15 +724,15 @@ Definition parse_command (fx : bool) (raw : bytes) : presult :=
   else
     match ts with
     | TWord w :: rest =>
-        if ci_eqb w K_DEFINE then PUnmodelled UDefine
+        if ci_eqb w K_DEFINE then parse_define ts
         else if ci_eqb w K_STORE then parse_store input
         else if ci_eqb w K_REMEMBER then parse_remember fx input
         else if ci_eqb w K_QUERY || ci_eqb w K_FIND then of_res CQuery (parse_query fx input)
         else if ci_eqb w K_REPLAY then parse_replay input
-        else if ci_eqb w K_BATCH then PUnmodelled UBatch
+        else if ci_eqb w K_BATCH then batch ts
         else if ci_eqb w K_PING then parse_nullary CPing ts
         else if ci_eqb w K_FLUSH then parse_nullary CFlush ts
-        else if ci_eqb w K_PLOT then PUnmodelled UPlot
+        else if ci_eqb w K_PLOT then parse_plot_cmd input
         else if ci_eqb w K_CREATE then parse_create_user ts
         else if ci_eqb w K_REVOKE then
           match rest with
@@ -504,6 +750,45 @@ Definition parse_command (fx : bool) (raw : bytes) : presult :=
     | _ => PErr
     end.
 
+(** a part of a BATCH that is itself a BATCH is an error: the re-assembled text contains no '[' right after
+    the word (brackets are dropped, a string starts with its quote) *)
+Definition parse_command_core (fx : bool) (raw : bytes) : presult := parse_command_with (fun _ => PErr) fx raw.
+
+Fixpoint batch_parts (fx : bool) (parts : list bytes) (acc : list command) (undecided : option presult) : presult :=
+  match parts with
+  | [] => match undecided with
+          | Some u => u
+          | None => match acc with [] => PErr | _ => POk (CBatch (frev acc)) end
+          end
+  | p :: r =>
+      match utrim p with
+      | [] => batch_parts fx r acc undecided
+      | _ =>
+          match parse_command_core fx p with
+          | POk c => batch_parts fx r (c :: acc) undecided
+          | PErr => PErr
+          | PPanic k => PPanic k            (* parts are parsed in order: nothing after a panic runs *)
+          | POOF => POOF
+          | other => batch_parts fx r acc (match undecided with Some u => Some u | None => Some other end)
+          end
+      end
+  end.
+
+Definition parse_batch (fx : bool) (ts : list token) : presult :=
+  match ts with
+  | _ :: TLSq :: r =>
+      match batch_buffer r 0 [] false with
+      | None => PErr
+      | Some None => PUnmodelled UBatch
+      | Some (Some buf) =>
+          (* an error in any part is an error of the whole, whatever the undecided parts are *)
+          batch_parts fx (split_semi buf []) [] None
+      end
+  | _ => PErr
+  end.
+
+Definition parse_command (fx : bool) (raw : bytes) : presult := parse_command_with (parse_batch fx) fx raw.
+
 (** [parse_command] in the mode the Rust text is in (tools/params/p31_query_numeric.py reads whether
     the conversions in query.rs [unwrap()] or are fallible [{? }] actions) *)
 Definition parse_command_cur (raw : bytes) : presult := parse_command query_numeric_fallible raw.
@@ -520,6 +805,7 @@ Definition peg_fallback (fx : bool) (raw : bytes) : option presult :=
       else if ci_eqb w K_REMEMBER then Some (parse_remember fx input)
       else if ci_eqb w K_QUERY || ci_eqb w K_FIND then Some (of_res CQuery (parse_query fx input))
       else if ci_eqb w K_REPLAY then Some (parse_replay input)
+      else if ci_eqb w K_PLOT then Some (parse_plot_cmd input)
       else None
   | _ => None
   end.
@@ -555,4 +841,5 @@ Definition kind_of (c : command) : ckind :=
   | CCreateUser _ _ _ => KCreateUser | CRevokeKey _ => KRevokeKey
   | CGrant _ _ _ => KGrantPermission | CRevokePerm _ _ _ => KRevokePermission
   | CShowPerm _ => KShowPermissions
+  | CCompare _ => KCompare | CDefine _ _ _ => KDefine | CBatch _ => KBatch
   end.
